@@ -152,12 +152,12 @@ Proof.
 Qed.
 
 (* ---------- to_outgroup_position ---------- *)
-Lemma to_outgroup_equivU t r og upd supp t' r' :
-  to_outgroup t r og upd supp = Ok (t', r') ->
+Lemma to_outgroup_old_equivU t r og upd supp t' r' :
+  to_outgroup_old t r og upd supp = Ok (t', r') ->
   NoDup (ids t) -> two_kids t -> NoDup (leaf_taxa t) ->
   equivU t t' /\ r' = r /\ exists k rest, t_kids t' = k :: rest /\ t_id k = og.
 Proof.
-  unfold to_outgroup. intros H NI H2 ND.
+  unfold to_outgroup_old. intros H NI H2 ND.
   destruct (parent_of og t) as [p|] eqn:EP; [|discriminate].
   apply bind_ok in H. destruct H as [[t1 r1] [H1 H]]. cbn [fst snd] in H.
   assert (E1 : equivU t t1).
@@ -172,6 +172,24 @@ Proof.
   assert (Hn : ks <> []) by (intro; subst; discriminate).
   apply equivT_perm; try assumption.
   apply (equivU_nodup _ _ E1) in ND. rewrite leaf_taxa_node in ND by assumption. assumption.
+Qed.
+
+Lemma to_outgroup_false t r og upd : to_outgroup t r og upd false = to_outgroup_old t r og upd false.
+Proof. unfold to_outgroup. destruct (to_outgroup_old t r og upd false) as [[a b]|e|]; reflexivity. Qed.
+
+(* the current form: the first-child clause holds without suppression (with it the outgroup itself may be
+   a unifurcation that is merged into its child) *)
+Lemma to_outgroup_equivU t r og upd supp t' r' :
+  to_outgroup t r og upd supp = Ok (t', r') ->
+  NoDup (ids t) -> two_kids t -> NoDup (leaf_taxa t) ->
+  equivU t t' /\ r' = r /\ (supp = false -> exists k rest, t_kids t' = k :: rest /\ t_id k = og).
+Proof.
+  unfold to_outgroup. intros H NI H2 ND.
+  apply bind_ok in H. destruct H as [[t1 r1] [H1 H]]. cbn [fst snd] in H. inversion H; subst t' r'. clear H.
+  destruct (to_outgroup_old_equivU _ _ _ _ _ _ _ H1 NI H2 ND) as [E1 [F1 K1]].
+  split; [|split; [exact F1|]].
+  - destruct supp; [|exact E1]. eapply equivU_trans; [exact E1 | apply suppress_equivU].
+  - intros ->. exact K1.
 Qed.
 
 (* ---------- reroot_at_node ---------- *)
@@ -264,11 +282,11 @@ Proof.
 Qed.
 
 (* ---------- rooting flag, outgroup position: no hypothesis on the tree ---------- *)
-Lemma to_outgroup_flag_first t r og upd supp t' r' :
-  to_outgroup t r og upd supp = Ok (t', r') ->
+Lemma to_outgroup_old_flag_first t r og upd supp t' r' :
+  to_outgroup_old t r og upd supp = Ok (t', r') ->
   r' = r /\ exists k rest, t_kids t' = k :: rest /\ t_id k = og.
 Proof.
-  unfold to_outgroup. intros H.
+  unfold to_outgroup_old. intros H.
   destruct (parent_of og t) as [p|] eqn:EP; [|discriminate].
   apply bind_ok in H. destruct H as [[t1 r1] [H1 H]]. cbn [fst snd] in H.
   assert (F1 : r1 = r).
@@ -277,6 +295,15 @@ Proof.
   destruct (to_front og ks) as [ks'|] eqn:EF; [|discriminate]. inversion H; subst t' r'.
   destruct (to_front_spec _ _ _ EF) as [HP [k [rest [Hk Hid]]]].
   split; [assumption | exists k, rest; split; assumption].
+Qed.
+
+Lemma to_outgroup_flag_first t r og upd supp t' r' :
+  to_outgroup t r og upd supp = Ok (t', r') ->
+  r' = r /\ (supp = false -> exists k rest, t_kids t' = k :: rest /\ t_id k = og).
+Proof.
+  unfold to_outgroup. intros H.
+  apply bind_ok in H. destruct H as [[t1 r1] [H1 H]]. cbn [fst snd] in H. inversion H; subst t' r'. clear H.
+  destruct (to_outgroup_old_flag_first _ _ _ _ _ _ _ H1) as [F1 K1]. split; [exact F1|]. intros ->. exact K1.
 Qed.
 
 Lemma reroot_at_node_flag t r n upd supp coll t' r' :
